@@ -73,6 +73,10 @@ HexDigits(n) == IF n < 16 THEN <<HexDigit(n)>> ELSE HexDigits(n \div 16) \o <<He
 
 DecRef(c) == <<38, 35>> \o DecDigits(c) \o <<59>>
 HexRef(c) == <<38, 35, 120>> \o HexDigits(c) \o <<59>>
+\* the same references with leading zeros ([66]: [0-9]+ / [0-9a-fA-F]+ - any number of digits)
+Zeros6 == <<48, 48, 48, 48, 48, 48>>
+DecRefZ(c) == <<38, 35>> \o Zeros6 \o DecDigits(c) \o <<59>>
+HexRefZ(c) == <<38, 35, 120>> \o Zeros6 \o HexDigits(c) \o <<59>>
 EntRef(n) == <<38>> \o n \o <<59>>
 
 RECURSIVE Flat(_)
@@ -103,16 +107,19 @@ Predefined(c) == CASE c = 60 -> <<108, 116>> [] c = 62 -> <<103, 116>> [] c = 38
 Escaped(c, mode) ==
   CASE mode = "dec" -> DecRef(c)
     [] mode = "hex" -> HexRef(c)
+    [] mode = "decz" -> DecRefZ(c)
+    [] mode = "hexz" -> HexRefZ(c)
     [] OTHER -> IF c \in {60, 62, 38, 39, 34} THEN EntRef(Predefined(c)) ELSE DecRef(c)
 
 LitChar(c, must, mode) ==
   IF IsWs(c) \/ ~IsChar(c) THEN <<c>>            \* never escaped: see module header / not expressible
   ELSE IF must THEN Escaped(c, mode)
-  ELSE CASE mode \in {"dec", "hex"} -> Escaped(c, mode)
+  ELSE CASE mode \in {"dec", "hex", "decz", "hexz"} -> Escaped(c, mode)
          [] mode = "ent" /\ c \in {62, 39, 34} -> Escaped(c, mode)
          [] OTHER -> <<c>>
 
-RefItem(it, mode) == IF mode = "hex" THEN HexRef(it.c) ELSE DecRef(it.c)
+RefItem(it, mode) == CASE mode = "hex" -> HexRef(it.c) [] mode = "hexz" -> HexRefZ(it.c) [] mode = "decz" -> DecRefZ(it.c)
+                       [] OTHER -> DecRef(it.c)
 
 \* attribute value / default value / entity value items inside quote q.  In an entity value
 \* the characters that must be escaped are written as DECIMAL CHARACTER REFERENCES (4.5 turns
@@ -247,5 +254,5 @@ Render(toks, style) == RenderFrom(toks, style, 1, 0)
 StyleOK(style) ==
   /\ style.quote \in {"dq", "sq", "mixed"} /\ style.tagws \in 0..2 /\ style.eqws \in BOOLEAN
   /\ style.empty \in {"tag", "pair"} /\ style.order \in {"fwd", "rev"} /\ style.declws \in 0..1
-  /\ style.chars # <<>> /\ \A i \in 1..Len(style.chars) : style.chars[i] \in {"lit", "dec", "hex", "ent", "cdata"}
+  /\ style.chars # <<>> /\ \A i \in 1..Len(style.chars) : style.chars[i] \in {"lit", "dec", "hex", "ent", "cdata", "decz", "hexz"}
 =============================================================================
